@@ -44,7 +44,7 @@ fn gen_program(t: &mut Tape, modified: bool) -> ProgOut {
     for k in 0..n {
         filler(t, &mut lines);
         let name = format!("t{k}");
-        let choice = if modified { t.below(9) } else { 100 + t.below(3) };
+        let choice = if modified { t.below(10) } else { 100 + t.below(4) };
         match choice {
             0 => lines.push(format!("function {name}(a, b) {{ return a.x.substring(1) + b }}")),
             1 => lines.push(format!("function {name}(a, b) {{ return thrower('{name}' + a.s) }}")),
@@ -74,6 +74,9 @@ fn gen_program(t: &mut Tape, modified: bool) -> ProgOut {
                 lines.push(format!("function {name}(a, b) {{ return new C{k}().m(a) }}"));
             }
             8 => lines.push(format!("function {name}(a, b) {{ b = undefined; return b.trim() + a.s }}")),
+            // an error message that itself contains lines looking like stack frames (a wrapped cause, a quoted trace)
+            9 => lines.push(format!("function {name}(a, b) {{ throw new Error('wrapped ' + a.s + '\\n    at inner (/nowhere/cause.js:1:1)\\n  at all costs') }}")),
+            103 => lines.push(format!("function {name}(a, b) {{ throw new Error('plain\\n    at inner (/nowhere/cause.js:1:1)\\n  at all costs') }}")),
             100 => lines.push(format!("function {name}(a, b) {{ throw new Error('plain') }}")),
             101 => lines.push(format!("function {name}(a, b) {{ return thrower(a.s) }}")),
             _ => lines.push(format!("function {name}(a, b) {{ return a.x.y }}")),
@@ -124,7 +127,14 @@ impl Check for C11 {
     fn decode(&self, tape: &[u8], _stream: usize) -> Value {
         let mut t = Tape::new(tape);
         // (small choice first) one history in three uses file names outside ASCII
-        let files = [["/virt/app/a.js", "/virt/app/lib/b.js"], ["/virt/app/caf\u{e9}/\u{f1}u.js", "/virt/app/lib/b.js"], ["/virt/app/a.js", "/virt/app/lib/\u{540d}\u{524d} \u{1F600}.js"]][t.below(3)];
+        let files = [
+            ["/virt/app/a.js", "/virt/app/lib/b.js"],
+            ["/virt/app/caf\u{e9}/\u{f1}u.js", "/virt/app/lib/b.js"],
+            ["/virt/app/a.js", "/virt/app/lib/\u{540d}\u{524d} \u{1F600}.js"],
+            // a file directly under the root; `$` sequences that mean something to String.prototype.replace
+            ["/top.js", "/virt/app/lib/b.js"],
+            ["/virt/app/a.js", "/virt/app/$&x/c$$d $' e.js"],
+        ][t.below(5)];
         let base_cfg = json!({
             "localVarPrefix": "test",
             "csiMethods": [
